@@ -558,7 +558,7 @@ pub fn run(ctx: &Ctx) -> Outcome {
         std::process::exit(2);
     }
     // layer 2: persistent engine
-    let len = ctx.tier.pick(5usize, 6usize);
+    let len = ctx.tier.pick(5usize, 7usize);
     let mut persistent = Vec::new();
     let (mut p_seqs, mut p_steps) = (0u64, 0u64);
     for c in configs().into_iter().filter(|c| ["exchanges=2", "exchanges=2/links=healthy+none", "exchanges=4"].contains(&c.label.as_str()) || c.label.starts_with("set=other")) {
